@@ -4,6 +4,7 @@ import (
 	"errors"
 
 	"github.com/go-kid/ioc/component_definition"
+	"github.com/go-kid/ioc/container"
 	"github.com/go-kid/ioc/container/processors"
 )
 
@@ -105,6 +106,36 @@ func NewLazyPP(class int, name string, ord int) any {
 	return &PPLazyPriorityOnly{PPPriorityOnly{c}}
 }
 
+// Processors whose order is only settled while the factory is being prepared (they read it from the
+// factory's configuration, as the built-in processors do with their settings): until then Order()
+// answers a provisional value.
+type PPLateOrdered struct {
+	PPOrdered
+	Final int
+}
+type PPLatePriority struct {
+	PPPriority
+	Final int
+}
+
+func (p *PPLateOrdered) PostProcessComponentFactory(f container.Factory) error {
+	p.Ord = p.Final
+	return nil
+}
+func (p *PPLatePriority) PostProcessComponentFactory(f container.Factory) error {
+	p.Ord = p.Final
+	return nil
+}
+
+// NewLatePP: class 1 (ordered) or 2 (priority-ordered); provisional order first, final order later.
+func NewLatePP(class int, name string, provisional, final int) any {
+	c := ppCore{Nm: name, Ord: provisional, FailOn: map[string]bool{}}
+	if class == 2 {
+		return &PPLatePriority{PPPriority{c}, final}
+	}
+	return &PPLateOrdered{PPOrdered{c}, final}
+}
+
 func NewPP(class int, name string, ord int) any {
 	c := ppCore{Nm: name, Ord: ord, FailOn: map[string]bool{}}
 	switch class {
@@ -127,6 +158,10 @@ func PPCoreOf(p any) *ppCore {
 	case *PPPriority:
 		return &x.ppCore
 	case *PPPriorityOnly:
+		return &x.ppCore
+	case *PPLateOrdered:
+		return &x.ppCore
+	case *PPLatePriority:
 		return &x.ppCore
 	case *PPLazyUnordered:
 		return &x.ppCore
